@@ -10,16 +10,18 @@
      p_uid      snowfakery/standard_plugins/UniqueId.py:118
                   UniqueNumericIdGenerator.context_uniqifier = count(1)      (class attribute)
      p_dates    snowfakery/template_funcs.py:52   @lru_cache(maxsize=512) parse_date
-     p_dts      snowfakery/template_funcs.py:62   @lru_cache(maxsize=512) parse_datetimespec
-                  (the keys "now" and "today" read the clock INSIDE the cached function)
+     p_dts      snowfakery/template_funcs.py:73   @lru_cache(maxsize=512) _parse_datetimespec
+                  (since fix fc3a5e8 the uncached wrapper parse_datetimespec answers the keys "now"
+                  and "today" from the clock and never hands them to the cache)
      p_masks    snowfakery/utils/scrambled_numbers.py:7,12  @lru_cache() randomizer / mask_for_key
                   (memo tables of pure functions of their arguments; only their growth is modelled)
      p_rowhist  snowfakery/object_rows.py:13  RowHistoryCV = ContextVar("RowHistory"), set by
                   Interpreter.execute (data_generator_runtime.py:389), read by
                   LazyLoadedObjectReference.__getattr__ (object_rows.py:92)
-     p_app_ver  not a snowfakery location: the `plugin_options` dict OWNED BY THE EMBEDDING
-                  APPLICATION when it passes the same non-empty dict to every run;
-                  data_generator.py:148-150 writes plugin_options["snowfakery_version"] into it.
+   The `plugin_options` dict an embedding application passes to every run is NOT process state any
+   more: since fix d5304ed `generate` copies it (data_generator.py:152) before writing the recipe's
+   snowfakery_version, so it is an input of the run ([e_app_ver]) that the harness checks to be
+   unchanged afterwards.
 
    Everything else (Globals, IdManager, Transients, Interpreter.instance_states, plugin
    instances, StandardFuncs.Functions()._uidgen, the ParseResult with SimpleValue._evaluator,
@@ -72,12 +74,11 @@ Record proc := mkProc {
   p_dates : lru;
   p_dts : lru;
   p_masks : Z;                            (* calls that went through the memoised mask function *)
-  p_rowhist : option (list (string * Z)); (* rows saved in the RowHistory the ContextVar holds *)
-  p_app_ver : option Z                    (* "snowfakery_version" entry of the application's dict *)
+  p_rowhist : option (list (string * Z))  (* rows saved in the RowHistory the ContextVar holds *)
 }.
 
 (* a process that has imported snowfakery and run nothing *)
-Definition proc0 : proc := mkProc 1 lru_empty lru_empty 0 None None.
+Definition proc0 : proc := mkProc 1 lru_empty lru_empty 0 None.
 
 Inductive gslot :=
 | SlotNum            (* ${{unique_id}}            : StandardFuncs.Functions()._uidgen.default_uniqifier *)
@@ -125,7 +126,8 @@ Inductive op :=
 | OCounter (name : string) (start step : Z)  (* memoised plugin value (Counters.NumberCounter / @memorable) *)
 | OUid (g : gslot)                       (* a unique id is drawn *)
 | ODate (k : key)                        (* template_funcs.parse_date(k)          *)
-| ODatetime (k : key)                    (* template_funcs.parse_datetimespec(k)  *)
+| ODatetime (k : key)                    (* template_funcs.parse_datetimespec(k): clock keys answered
+                                            directly, the others through the _parse_datetimespec cache *)
 | OLazy (table : string)                 (* attribute of a random_reference result: RowHistoryCV.get().load_row *)
 | OVersion                               (* a value whose rendering depends on native-types mode *)
 | OFail (e : err).                       (* evaluation raises *)
@@ -143,9 +145,11 @@ Record recipe := mkRecipe {
 
 (* inputs of one run that are not the recipe *)
 Record env := mkEnv {
-  e_now : Z;                    (* clock: datetime.now() during this run (one reading suffices: it is cached) *)
+  e_now : Z;                    (* clock: datetime.now() during this run (the harness only locates a
+                                   value in the time window of a run, so one reading per run suffices) *)
   e_today : Z;                  (* clock: date.today() during this run *)
-  e_shared : bool               (* the application passes its own non-empty plugin_options dict *)
+  e_app_ver : option Z          (* "snowfakery_version" entry of the plugin_options the application
+                                   passes (None: no dict, or a dict without that entry) *)
 }.
 
 Inductive obs :=
@@ -168,24 +172,16 @@ Section Run.
   Variable parse_d : key -> option Z.
   Variable parse_dt : key -> option Z.
 
-  (* the function wrapped by the parse_datetimespec cache, during a run with clock [e] *)
-  Definition dt_fun (e : env) (k : key) : option Z :=
-    if String.eqb k "now" then Some (e_now e)
-    else if String.eqb k "today" then Some (e_today e)
-    else parse_dt k.
-
   Definition set_dates (p : proc) (c : lru) : proc :=
-    mkProc (p_uid p) c (p_dts p) (p_masks p) (p_rowhist p) (p_app_ver p).
+    mkProc (p_uid p) c (p_dts p) (p_masks p) (p_rowhist p).
   Definition set_dts (p : proc) (c : lru) : proc :=
-    mkProc (p_uid p) (p_dates p) c (p_masks p) (p_rowhist p) (p_app_ver p).
+    mkProc (p_uid p) (p_dates p) c (p_masks p) (p_rowhist p).
   Definition set_rowhist (p : proc) (h : option (list (string * Z))) : proc :=
-    mkProc (p_uid p) (p_dates p) (p_dts p) (p_masks p) h (p_app_ver p).
-  Definition set_app_ver (p : proc) (v : option Z) : proc :=
-    mkProc (p_uid p) (p_dates p) (p_dts p) (p_masks p) (p_rowhist p) v.
+    mkProc (p_uid p) (p_dates p) (p_dts p) (p_masks p) h.
   Definition draw_context (p : proc) : proc :=
-    mkProc (p_uid p + 1) (p_dates p) (p_dts p) (p_masks p) (p_rowhist p) (p_app_ver p).
+    mkProc (p_uid p + 1) (p_dates p) (p_dts p) (p_masks p) (p_rowhist p).
   Definition touch_masks (p : proc) : proc :=
-    mkProc (p_uid p) (p_dates p) (p_dts p) (p_masks p + 1) (p_rowhist p) (p_app_ver p).
+    mkProc (p_uid p) (p_dates p) (p_dts p) (p_masks p + 1) (p_rowhist p).
 
   Definition dge : err := DGE "".
 
@@ -220,8 +216,11 @@ Section Run.
       let '(c, r) := lru_call date_cache_size parse_d (p_dates p) k in
       (set_dates p c, match r with Some v => Ok (s, [BVal v]) | None => Err dge end)
     | ODatetime k =>
-      let '(c, r) := lru_call date_cache_size (dt_fun e) (p_dts p) k in
-      (set_dts p c, match r with Some v => Ok (s, [BVal v]) | None => Err dge end)
+      if String.eqb k "now" then (p, Ok (s, [BVal (e_now e)]))          (* not cached *)
+      else if String.eqb k "today" then (p, Ok (s, [BVal (e_today e)]))
+      else
+        let '(c, r) := lru_call date_cache_size parse_dt (p_dts p) k in
+        (set_dts p c, match r with Some v => Ok (s, [BVal v]) | None => Err dge end)
     | OLazy t =>
       match p_rowhist p with
       | None => (p, Err dge)                            (* LookupError, wrapped by SimpleValue.render *)
@@ -246,29 +245,23 @@ Section Run.
       end
     end.
 
-  (* data_generator.py:146-150:  plugin_options = plugin_options or {};
+  (* data_generator.py:152-156:  plugin_options = dict(plugin_options or {})   -- a copy
        if parse_result.version: plugin_options["snowfakery_version"] = parse_result.version
      then process_plugins_options reads the entry back *)
-  Definition effective_version (p : proc) (e : env) (r : recipe) : Z :=
+  Definition effective_version (e : env) (r : recipe) : Z :=
     match r_version r with
     | Some v => v
-    | None => if e_shared e then match p_app_ver p with Some v => v | None => 2 end else 2
+    | None => match e_app_ver e with Some v => v | None => 2 end
     end.
-
-  Definition write_app_ver (p : proc) (e : env) (r : recipe) : proc :=
-    if e_shared e then match r_version r with Some v => set_app_ver p (Some v) | None => p end
-    else p.
 
   (* snowfakery.data_generator.generate *)
   Definition run (p : proc) (e : env) (r : recipe) : proc * outcome :=
     match r_stage r with
     | SParseFail => (p, mkOut [] (Some dge))
-    | SInitFail => (write_app_ver p e r, mkOut [] (Some dge))
+    | SInitFail => (p, mkOut [] (Some dge))
     | SExec =>
-      let ver := effective_version p e r in
-      let p1 := write_app_ver p e r in
-      let p2 := set_rowhist p1 (Some []) in     (* RowHistoryCV.set(self.row_history) *)
-      exec_ops e ver p2 rs0 (r_ops r)
+      let p2 := set_rowhist p (Some []) in      (* RowHistoryCV.set(self.row_history) *)
+      exec_ops e (effective_version e r) p2 rs0 (r_ops r)
     end.
 
   (* runs executed back to back in one process *)
@@ -285,18 +278,10 @@ Section Run.
   Definition after (l : list (env * recipe)) : proc := fst (run_seq proc0 l).
 End Run.
 
-(* recipes that use no process-reading function: no unique id, no clock key *)
-Definition op_reads_proc (o : op) : bool :=
-  match o with
-  | OUid _ => true
-  | ODatetime k => is_clock_key k
-  | _ => false
-  end.
-Definition no_proc_funcs (r : recipe) : bool := negb (existsb op_reads_proc (r_ops r)).
-
-(* the run does not look at the application's shared options dict *)
-Definition version_fixed (e : env) (r : recipe) : bool :=
-  negb (e_shared e) || match r_version r with Some _ => true | None => false end.
+(* The only operation whose observation depends on the process state a run starts in: a unique
+   id (its generator draws the process-wide context counter). *)
+Definition is_uid_op (o : op) : bool := match o with OUid _ => true | _ => false end.
+Definition no_uid (r : recipe) : bool := negb (existsb is_uid_op (r_ops r)).
 
 (* the unique-id draws among the observations: (generator slot, (context, index)) *)
 Fixpoint uid_obs (l : list obs) : list (gslot * (Z * Z)) :=
@@ -348,10 +333,10 @@ Fixpoint prefix_eqb (a b : list obs) : bool :=
 Record pview := mkView {
   v_uid : Z;                    (* repr(context_uniqifier) = count(n) *)
   v_dates_size : Z; v_dates_misses : Z;     (* parse_date.cache_info() *)
-  v_dts_size : Z; v_dts_misses : Z;         (* parse_datetimespec.cache_info() *)
+  v_dts_size : Z; v_dts_misses : Z;         (* _parse_datetimespec.cache_info() *)
   v_cv_set : bool;              (* RowHistoryCV has a value *)
   v_cv_changed : bool;          (* it holds another RowHistory object than before the run *)
-  v_app_ver : option Z          (* the application's dict after the run (None when not shared / absent) *)
+  v_app_ver : option Z          (* the application's dict after the run (None when no dict / no entry) *)
 }.
 
 Record run_case := mkRunCase {
@@ -392,20 +377,20 @@ Definition err_opt_eqb (a b : option err) : bool :=
 
 Definition zopt_eqb := option_eqb Z.eqb.
 
-Definition view_ok (before after : proc) (v : pview) : bool :=
+Definition view_ok (e : env) (after : proc) (v : pview) : bool :=
   (p_uid after =? v_uid v) &&
   (Z.of_nat (length (l_items (p_dates after))) =? v_dates_size v) &&
   (l_misses (p_dates after) =? v_dates_misses v) &&
   (Z.of_nat (length (l_items (p_dts after))) =? v_dts_size v) &&
   (l_misses (p_dts after) =? v_dts_misses v) &&
   Bool.eqb (match p_rowhist after with Some _ => true | None => false end) (v_cv_set v) &&
-  zopt_eqb (p_app_ver after) (v_app_ver v).
+  zopt_eqb (e_app_ver e) (v_app_ver v).          (* the application's dict is left as it was *)
 
 Definition run_ok (parse_d parse_dt : key -> option Z) (p : proc) (rc : run_case) : proc * bool :=
   let '(p', out) := run parse_d parse_dt p (rc_env rc) (rc_recipe rc) in
   let reached := match r_stage (rc_recipe rc) with SExec => true | _ => false end in
   (p',
-   view_ok p p' (rc_view rc) && Bool.eqb reached (v_cv_changed (rc_view rc)) &&
+   view_ok (rc_env rc) p' (rc_view rc) && Bool.eqb reached (v_cv_changed (rc_view rc)) &&
    (rc_opaque rc ||
     (err_opt_eqb (o_err out) (rc_err rc) &&
      match o_err out with
